@@ -12,7 +12,7 @@ RULE = ('cases: connected graphs with >=1 edge: paths, stars, cycles, fused ring
         'align_with; numpy seed drawn. Oracle: set(pos) == set(G), every position a finite ndarray of shape (2,), no two bonded '
         'nodes coincide (distance > 1e-9 x bond), |mean bond length - default_bond| <= 1e-7 x default_bond, for '
         'the graph and for its relabelled copy; half of the resolved molecules are also laid out through '
-        'draw_molecule(layout_method=vespr) twice in one process with two different bond lengths. non-trivial = >=3 nodes and a ring or a branch; distinct = graph + '
+        'draw_molecule(layout_method=vespr) twice in one process with two different bond lengths and a third time after the caller scaled the returned positions in place; 10 % bond lengths as numpy scalars. non-trivial = >=3 nodes and a ring or a branch; distinct = graph + '
         'bond length')
 ASSUMPTIONS = ['layout quality is not asserted, only the stated postconditions',
                'the numpy global RNG is seeded by the harness before every layout call']
